@@ -509,9 +509,11 @@ Inductive op :=
 | OGpf (addr : N)
 | OSetupKernel (off : N) (secs : list section)
 | OEarlyReserve (size : N)
-| OFlipPath (page level mask : N).
+| OFlipPath (page level mask : N)
+| OOrUpper (page level mask : N).
 
 Definition slot_of (k : N) : N := N.land k 7.
+Definition safe_bits : N := 0xFFF0000000000F7E.   (* every bit except P (0), PS (7) and the frame field (12-51) *)
 Definition page36 (p : N) : N := N.land p 0xFFFFFFFFF.
 
 (** -> (state, code, value) *)
@@ -554,6 +556,21 @@ Definition step (o : op) (s : st) : R (st * N * N) :=
       | Some t => let i := hw_idx (page36 p) (N.land level 3) in Ok (wr_st s t i (N.lxor (rd (mem s) t i) mask), 0, 0)
       | None => Ok (s, 1, 0)
       end
+  | OOrUpper p level mask =>
+      (* set-up op of the harness: or bits the MMU's translation ignores (everything but P, PS and the frame
+         field) into a PRESENT upper-level entry on [p]'s path in the active space (level 0..2), or into the
+         recursive entry 511 of the active root (level 3) -- what the CPU (Accessed) or an OS may have put there *)
+      let m := N.land mask safe_bits in
+      let root := N.shiftr (cr3 s) 12 in
+      if N.land level 3 =? 3 then
+        if backed s root && hw_P (rd (mem s) root 511) then Ok (wr_st s root 511 (N.lor (rd (mem s) root 511) m), 0, 0)
+        else Ok (s, 1, 0)
+      else
+        match table_on_path s hw_levels (N.land level 3) root (page36 p) with
+        | Some t => let i := hw_idx (page36 p) (N.land level 3) in
+                    if hw_P (rd (mem s) t i) then Ok (wr_st s t i (N.lor (rd (mem s) t i) m), 0, 0) else Ok (s, 1, 0)
+        | None => Ok (s, 1, 0)
+        end
   end.
 
 (** roots probed after every op: the active one, then every initialised slot *)
@@ -641,6 +658,7 @@ Fixpoint dec_ops (fuel : nat) (l : list N) : list op :=
   | 15 :: off :: k :: r => let '(ss, r') := dec_secs (N.to_nat k) r in OSetupKernel off ss :: dec_ops fuel r'
   | 16 :: sz :: r => OEarlyReserve sz :: dec_ops fuel r
   | 17 :: p :: k :: m :: r => OFlipPath p k m :: dec_ops fuel r
+  | 18 :: p :: k :: m :: r => OOrUpper p k m :: dec_ops fuel r
   | _ => []
   end end.
 
